@@ -54,7 +54,11 @@ func rootGlobal(v ssa.Value) *ssa.Global {
 
 func ruleGlobals(c *Ctx) {
 	const R = "R13-globals"
-	c.floor(R, 40)
+	if c.Prop == "C08" {
+		c.floor(R, 15)
+	} else {
+		c.floor(R, 40)
+	}
 	p := c.P
 	p.computeNoReturn()
 	globals := map[*ssa.Global]bool{}
@@ -164,8 +168,28 @@ func ruleGlobals(c *Ctx) {
 			}
 		})
 	}
+	// Registered for C08 the rule speaks about the front end only: the variables the lexer, the parser and
+	// the compiler read (a shared table of another library is C13's business, not a parsing defect).
+	front := map[*ssa.Global]bool{}
+	if c.Prop == "C08" {
+		for _, fn := range p.srcFuncs {
+			if fn.Pkg == nil || !(fn.Pkg.Pkg.Name() == "parse" || strings.HasPrefix(p.pos(fn.Pos()), "compile.go:")) {
+				continue
+			}
+			allInstrs(fn, func(in ssa.Instruction) {
+				for _, op := range in.Operands(nil) {
+					if gl, ok := (*op).(*ssa.Global); ok {
+						front[gl] = true
+					}
+				}
+			})
+		}
+	}
 	n := 0
 	for gl := range globals {
+		if c.Prop == "C08" && !front[gl] {
+			continue
+		}
 		n++
 		key := fmt.Sprintf("%s.%s", gl.Pkg.Pkg.Name(), gl.Name())
 		if isSyncPool(gl) {
@@ -229,6 +253,9 @@ func ruleGlobals(c *Ctx) {
 		"(*LState).Push": true, "(*LState).SetGlobal": true, "(*LTable).RawSet": true, "(*LTable).RawSetString": true, "(*LTable).RawSetInt": true,
 		"(*LTable).RawSetH": true, "(*LTable).Append": true, "(*LTable).Insert": true, "(*registry).Push": true, "(*registry).Set": true}
 	for gl := range globals {
+		if c.Prop == "C08" && !front[gl] {
+			continue
+		}
 		pt, ok := gl.Type().(*types.Pointer).Elem().Underlying().(*types.Pointer)
 		if !ok {
 			continue
